@@ -133,7 +133,12 @@ theorem limit_skips (fm : Fmt) (maxLen : Nat) (b : Binding) (line : Bytes)
     | str x => simp only [hb] at h hv ⊢; exact hv _ _ rfl rfl h
     | array x => simp only [hb] at h hv ⊢; exact hv _ _ rfl rfl h
     | map x y => simp only [hb] at h hv ⊢; exact hv _ _ rfl rfl h
-    | ext x => simp only [hb] at h hv ⊢; exact hv _ _ rfl rfl h
+    | ext x =>
+      -- written by name: the same text with and without limit
+      simp only [hb] at h ⊢
+      by_cases hl : 0 < maxLen ∧ maxLen < (toBytes x).length
+      · simp [hl, pure, Except.pure] at h
+      · simp [hl] at h; simpa using h
     | error x => simp only [hb] at h hv ⊢; exact hv _ _ rfl rfl h
     | ret x y => simp only [hb] at h hv ⊢; exact hv _ _ rfl rfl h
     | ref x y => simp only [hb] at h hv ⊢; exact hv _ _ rfl rfl h
